@@ -261,6 +261,9 @@ class Prov:
         t = self.fn.blocks[bb]["term"]
         name = callee_path(t) or ("<indirect:%s>" % t.get("func_ty", "?"))
         args = tuple(self.operand_term(a, bb, "term") for a in t["args"])
+        inl = inline_pure_helper(self.prog, name, args, self.fn.key)
+        if inl is not None:
+            return inl
         return ("call", name, args, (self.fn.key, bb))
 
     def project(self, t, e):
@@ -597,3 +600,73 @@ def promoted_term(prog, path, idx):
             t = resolve_consts(prog, Prov(pf).return_term())
     _PROM_MEMO[key] = t
     return t
+
+
+# ---- looking through crate-private helpers ---------------------------------------------------------------------
+def subst_params(t, args):
+    """replace ('param', i) by args[i] in a term (used to inline a helper's summary at a call site)"""
+    if not isinstance(t, tuple) or not t:
+        return t
+    k = t[0]
+    if k == "param":
+        return args[t[1]] if t[1] < len(args) else t
+    if k == "call":
+        return ("call", t[1], tuple(subst_params(a, args) for a in t[2])) + tuple(t[3:])
+    if k == "aggr":
+        return ("aggr", t[1], t[2], tuple((f, subst_params(x, args)) for f, x in t[3]))
+    if k in ("tuple", "array"):
+        return (k, tuple(subst_params(x, args) for x in t[1]))
+    if k == "closure":
+        return (k, t[1], tuple(subst_params(x, args) for x in t[2]))
+    if k in ("field", "variant"):
+        return (k, subst_params(t[1], args), t[2])
+    if k in ("deref", "tryok", "discr"):
+        r = (k, subst_params(t[1], args))
+        if k == "deref" and r[1][0] == "ref":
+            return r[1][1]
+        return r
+    if k == "ref":
+        return (k, subst_params(t[1], args), t[2])
+    if k == "cast":
+        return (k, t[1], subst_params(t[2], args), t[3])
+    if k == "binop":
+        return (k, t[1], subst_params(t[2], args), subst_params(t[3], args))
+    if k == "unop":
+        return (k, t[1], subst_params(t[2], args))
+    if k == "phi":
+        return mk_phi([subst_params(x, args) for x in t[1]])
+    return t
+
+
+def pure_summary(prog, key):
+    """return term of a crate-private helper that is a single pure expression of its parameters
+    (no branches, no effects, no diverging call), else None"""
+    memo = prog._helper_memo
+    if key in memo:
+        return memo[key]
+    memo[key] = None   # recursion guard
+    if not prog.is_private_helper(key):
+        return None
+    f = prog.fns[key]
+    for bb, t in f.calls():
+        c = t.get("callee") or {}
+        if c.get("never") or callee_path(t) == key:
+            return None
+    pv = Prov(f)
+    if pv.effects():
+        return None
+    rt = pv.return_term()
+    for s in subterms(rt):
+        if isinstance(s, tuple) and s and s[0] in ("phi", "loop", "undef"):
+            return None
+    memo[key] = rt
+    return rt
+
+
+def inline_pure_helper(prog, name, args, caller_key):
+    if name == caller_key:
+        return None
+    rt = pure_summary(prog, name)
+    if rt is None:
+        return None
+    return subst_params(rt, args)
